@@ -42,7 +42,9 @@ TROpen    == Is("ROpen") /\ ROpen(Ev.r, Ev.path, Ev.ok)
 TRDestroy == Is("RDestroy") /\ RDestroy(Ev.r)
 TRMeta    == Is("RMeta") /\ Ev.r \in DOMAIN rd /\ StatsOk(rd[Ev.r].path, Ev)
 TInfo     == Is("Info") /\ StatsOk(Ev.path, Ev)
-TDump     == Is("Dump") /\ DumpOk(Ev.path, Ev.kp, Ev.vp, Ev.mink, Ev.minv, Ev.ents)
+\* toolok: exit status 0 and every -x line well-formed; quoted: the default mode printed the manual's rendering of the same entries
+\* and -s printed nothing (both computed by the projection from the tool's three outputs)
+TDump     == Is("Dump") /\ DumpOk(Ev.path, Ev.kp, Ev.vp, Ev.mink, Ev.minv, Ev.ents) /\ Ev.toolok /\ Ev.quoted
 TFileStruct == Is("FileStruct") /\ FileStruct(Ev.path, Ev.S)
 TFileHash == Is("FileHash") /\ FileHash(Ev.path, Ev.h, Ev.exists)
 TAbsent   == Is("Absent") /\ ~Ev.exists /\ MkAbsent(Ev.path)
